@@ -1,6 +1,7 @@
 import PercevalModel.Proto
 import PercevalModel.Model.C06
 import PercevalModel.Model.C06Proc
+import PercevalModel.Model.C06Samp
 
 open Lean PM PM.Proto PM.C06
 
@@ -136,6 +137,73 @@ def runHist (j : Json) : Except String Json := do
     s := s'
   return Json.mkObj [("outs", Json.arr outs)]
 
+
+/-! ### the sampler as a function of its recorded draws -/
+
+def natListList (j : Json) : Except String (List (List ℕ)) := do
+  (← j.getArr?).toList.mapM natList
+
+def routeStr : SampRoute → String
+  | .perfect => "perfect"
+  | .noFilter => "no-filter"
+  | .aborted => "aborted"
+  | .noEvent => "IndexError"
+  | .events => "events"
+
+/-- row `i` of the draws: the `i`-th draw of every call -/
+def rowOf (calls : List (List ℕ)) (i : ℕ) : List ℕ := calls.map fun c => c.getD i 0
+
+/-- cut the flat list of calls into the calls of each mode -/
+def cutBy {α : Type} : List ℕ → List α → List (List α)
+  | [], _ => []
+  | n :: ns, l => l.take n :: cutBy ns (l.drop n)
+
+def isPermOf (n : ℕ) (p : List ℕ) : Bool :=
+  p.length = n && (List.range n).all fun i => p.contains i
+
+/-- `generate_samples(k, ns, 0)` replayed: `calls` = the index lists drawn by the successive
+`bsd.sample(k)` calls -/
+def replayNF (P : Params) (j : Json) : Except String Json := do
+  let t ← natOf j "t"
+  let ns ← natList (← j.getObjVal? "ns")
+  let k ← natOf j "k"
+  let calls ← natListList (← j.getObjVal? "calls")
+  if sampRoute P ns.sum 0 ≠ .noFilter then throw "route"
+  let dss := nfDists P ns t
+  let flat := dss.flatten
+  if calls.length ≠ flat.length then throw s!"bad-draw: {calls.length} calls, model {flat.length}"
+  if calls.any (fun c => c.length ≠ k) then throw "bad-draw: call size"
+  if (List.zip flat calls).any (fun x => x.2.any fun i => decide (x.1.length ≤ i)) then
+    throw "bad-draw: index"
+  let samples := (List.range k).map fun i => nfSample dss (cutBy ns (rowOf calls i))
+  let callsJ := Json.arr (flat.map fun d => distJ modeJ (normalize d)).toArray
+  return Json.mkObj [("samples", Json.arr (samples.map stateJ).toArray), ("calls", callsJ),
+    ("tag", toJson (nfTag P ns t))]
+
+/-- `generate_samples(k, ns, f)` with `f ≠ 0` replayed: the event indices, the indices (0 = True) of the
+one `_generate_distinguishability` call, the permutation of every shuffle -/
+def replayF (P : Params) (j : Json) : Except String Json := do
+  let t ← natOf j "t"
+  let ns ← natList (← j.getObjVal? "ns")
+  let f ← natOf j "f"
+  let evIdx ← natList (← j.getObjVal? "events")
+  let bIdx ← natList (← j.getObjVal? "bools")
+  let perms ← natListList (← j.getObjVal? "perms")
+  let n := ns.sum
+  if sampRoute P n f ≠ .events then throw "route"
+  let tab := table P n f
+  if evIdx.any (fun i => decide (tab.length ≤ i)) then throw "bad-draw: event index"
+  let events := evIdx.map (eventOf P n f)
+  let need := (events.map fun e => e.1 + e.2.2).sum
+  if bIdx.length ≠ need then throw s!"bad-draw: {bIdx.length} booleans, model reads {need}"
+  if bIdx.any (fun i => decide (2 ≤ i)) then throw "bad-draw: boolean index"
+  if perms.length ≠ events.length then throw "bad-draw: shuffles"
+  if perms.any (fun p => !isPermOf n p) then throw "bad-draw: not a permutation"
+  let samples := fSamples P.dm ns t events (bIdx.map fun i => decide (i = 0)) perms
+  let evJ := Json.arr (events.map fun e => Json.arr #[toJson e.1, toJson e.2.1, toJson e.2.2]).toArray
+  return Json.mkObj [("samples", Json.arr (samples.map stateJ).toArray), ("events", evJ),
+    ("boolw", Json.arr #[ratToJson P.r, ratToJson (1 - P.r)])]
+
 def handleE (j : Json) : Except String Json := do
   let op ← strOf j "op"
   if op = "hist" then return ← runHist j
@@ -183,6 +251,12 @@ def handleE (j : Json) : Except String Json := do
       Json.arr #[toJson e.1.1, toJson e.1.2.1, toJson e.1.2.2, ratToJson e.2]).toArray
     return Json.mkObj [("table", tj), ("perf", ratToJson (physPerf P n f)),
       ("zpp", ratToJson (zeroPhotonProb P n))]
+  | "route" =>
+    let ns ← natList (← j.getObjVal? "ns")
+    let f ← natOf j "f"
+    return Json.mkObj [("route", toJson (routeStr (sampRoute P ns.sum f)))]
+  | "replay_nf" => replayNF P j
+  | "replay_f" => replayF P j
   | _ => throw "bad-op"
 
 def handle (j : Json) : Json :=
